@@ -91,6 +91,9 @@ def feature_ops():
     mk("mutation with recursive fragment", "mutation",
        [Field("rename", [Spread("UserRec"), Field("role")], args=[("id", "$id"), ("name", "$name")]), Field("touch")],
        [("id", "ID!", None), ("name", "String!", None)])
+    mk("query over types whose names are not CamelCase", "query",
+       [Field("find", [TN(), Inline("http_error", [Field("code"), Field("order")]), Inline("User", [Field("name")])], args=[("input", "$i")])],
+       [("i", "search_input", None), ("o", "sort_order", None)])
     mk("subscription on interface", "subscription",
        [Field("changed", [TN(), Field("id"), Inline("User", [Field("name"), Field("role")]), Inline("Bot", [Field("version")])])])
     return ops
